@@ -34,6 +34,15 @@ def _keyword_case(repo, rep):
               "the text/structure keyword is matched case-sensitively, as "
               "the consumer compares it (key == 'text')",
               construct="keyword-case", detail=pat)
+    # every site that builds a content node gets its keyword from
+    # parse_substitution, which answers 'text' when none is written
+    ps = repo.func("chameleon.tal.parse_substitution")
+    tps = L.text(ps.node)
+    rep.check("if not key: key = 'text'" in tps and
+              "return (key, expression)" in tps, "R02.1", ps.qualname,
+              "a substitution without keyword is 'text' for every caller "
+              "(content, replace and on-error alike)",
+              construct="keyword-default", where=L.where(ps))
     f = repo.func("chameleon.zpt.program.MacroProgram._make_content_node")
     cmp_ = [n for n in ast.walk(f.node) if isinstance(n, ast.Compare)
             and src(n.left) == "key"]
@@ -74,8 +83,11 @@ def _quote_never_empty(repo, rep, rule="R02.1"):
         t = A.show(q, limit=8)
         dq, sq = chr(34), chr(39)
         quotes = (sq + dq + sq, dq + sq + dq, repr(dq), repr(sq))
+        # ... for both kinds of computed value: a tal:attributes entry
+        # ([5] is not None) and ${...} in the static text
         guarded = isinstance(q, A.Alt) and ("not " + raw) in q.test and \
-            A.show(q.a) in quotes
+            A.show(q.a) in quotes and "[1][5] is not None" in q.test and \
+            "'${' in" in q.test
         if t == raw or (raw in t and not guarded):
             bad.append("%s = %s" % (what, t[:80]))
     rep.check(n >= 2 and not bad, rule, f.qualname, "the quote character "
